@@ -32,3 +32,217 @@ Theorem C19_valid_chain_never_refused :
   forall W P s ch, chain_valid W P s ch -> apply_chain W P s ch = VOk (after_chain s ch).
 Proof. exact valid_chain_never_refused. Qed.
 Print Assumptions C19_valid_chain_never_refused.
+
+(** * Honest VTBs, exact settlement windows, fork independence (Rules/C19HonestDefs.v, C19Honest.v, C19Window.v) *)
+From VB Require Import Rules.C19HonestDefs Rules.C19Honest Rules.C19Window.
+
+(** the VTBs an honest pop miner builds for one ALT block (endorsed block = the block of the containing block's own
+    chain at the chosen height; BTC context = MockMiner::getBlocks from the block of proof down to the nearest BTC
+    block the chain already references, each VTB knowing the blocks of the earlier ones) satisfy the contextual
+    rules in the state after the block's VBK context.  Premises: containing block delivered, timeliness, at most
+    MAX_VBKPOPTX_PER_VBK_BLOCK per VBK block, honest BTC clocks, the known VBK blocks are parent-closed. *)
+Theorem C19_honest_vtbs_valid :
+  forall W P, btc_clock_ok W ->
+  forall sps s ws,
+    honest_vtbs W s sps = Some ws ->
+    honest_vtb_specs W P s sps -> vclosed W (vknown s) ->
+    vtbs_valid W P s ws.
+Proof. exact honest_vtbs_valid. Qed.
+Print Assumptions C19_honest_vtbs_valid.
+
+(** the construction exists whenever the miner's chain has a block at the endorsed height and some strict ancestor
+    of the block of proof is referenced by the chain before the block's VTBs *)
+Theorem C19_honest_vtbs_buildable :
+  forall W sps s,
+    (forall sp, In sp sps -> spec_buildable W (brefs s) sp) -> exists ws, honest_vtbs W s sps = Some ws.
+Proof. exact honest_vtbs_succeed. Qed.
+Print Assumptions C19_honest_vtbs_buildable.
+
+(** parent-closure of the known VBK blocks holds in every state reached by a valid chain *)
+Theorem C19_known_vbk_parent_closed :
+  forall W P ch,
+    parent_of (vbks W) 0 = None -> chain_valid W P st0 ch -> vclosed W (vknown (after_chain st0 ch)).
+Proof. exact vclosed_reachable. Qed.
+Print Assumptions C19_known_vbk_parent_closed.
+
+(** FULL: a block whose whole body is honest is accepted by the commands as coded — no validity premise about any
+    payload: honesty of the construction, timeliness, connecting context, no duplicate on the chain *)
+Theorem C19_honest_block_accepted_full :
+  forall W P s c ctx vspecs vtbs specs,
+    let K := known_after (vknown s) ctx in
+    let s1 := mkSt K (brefs s) (vin s) (seen s) in
+    let b := mkBody ctx vtbs (mk_honest W P specs) in
+    honest_vtbs W s1 vspecs = Some vtbs ->
+    honest_vtb_specs W P s1 vspecs ->
+    honest_atvs W P c K specs ->
+    ctx_connects W (vknown s) ctx ->
+    no_dup_on_chain s b ->
+    vclosed W (vknown s) -> btc_clock_ok W ->
+    exec_block W P s c b = inl (after_block s b).
+Proof. exact honest_block_accepted_full. Qed.
+Print Assumptions C19_honest_block_accepted_full.
+
+(** ... at the end of any valid chain from the bootstrap state (the closure premise is discharged) *)
+Theorem C19_honest_block_accepted_on_any_chain :
+  forall W P pre c ctx vspecs vtbs specs,
+    let s := after_chain st0 pre in
+    let K := known_after (vknown s) ctx in
+    let s1 := mkSt K (brefs s) (vin s) (seen s) in
+    let b := mkBody ctx vtbs (mk_honest W P specs) in
+    parent_of (vbks W) 0 = None -> btc_clock_ok W ->
+    chain_valid W P st0 pre ->
+    honest_vtbs W s1 vspecs = Some vtbs ->
+    honest_vtb_specs W P s1 vspecs ->
+    honest_atvs W P c K specs ->
+    ctx_connects W (vknown s) ctx ->
+    no_dup_on_chain s b ->
+    apply_chain W P st0 (pre ++ [(c, b)]) = VOk (after_block s b).
+Proof. exact honest_block_accepted_reachable. Qed.
+Print Assumptions C19_honest_block_accepted_on_any_chain.
+
+(** "timely" is exact: an otherwise honest ATV is accepted iff the endorsed block is on the containing block's chain
+    within the settlement interval ... *)
+Theorem C19_atv_accepted_iff_timely :
+  forall W P c K id e bop,
+    alt_known W e = true -> vbk_connects W K bop ->
+    ((exists K', exec_atv W P c K (honest_atv W (p_ki P) id e bop) = inl K')
+     <-> is_anc_or_eq (alts W) e c /\ within (alts W) c e (p_settle P)).
+Proof. exact honest_atv_accepted_iff. Qed.
+Print Assumptions C19_atv_accepted_iff_timely.
+
+(** ... the inequality is NON-strict, height(containing) - height(endorsed) <= settle (as AddEndorsement::Execute:
+    refused iff the difference > settle), and beyond it the verdict is exactly "expired" *)
+Theorem C19_atv_window_exact :
+  forall W P c K id e bop he hc,
+    alt_known W e = true -> vbk_connects W K bop -> is_anc_or_eq (alts W) e c ->
+    height_of (alts W) e = Some he -> height_of (alts W) c = Some hc ->
+    let t := honest_atv W (p_ki P) id e bop in
+    (exec_atv W P c K t = inl (add_known K bop) <-> hc - he <= p_settle P)
+    /\ (exec_atv W P c K t = inr EExpired <-> p_settle P < hc - he).
+Proof. exact honest_atv_window_exact. Qed.
+Print Assumptions C19_atv_window_exact.
+
+Theorem C19_atv_window_plus_one_accepted_refuted :
+  ~ (forall W P c K id e bop he hc,
+       alt_known W e = true -> vbk_connects W K bop -> is_anc_or_eq (alts W) e c ->
+       height_of (alts W) e = Some he -> height_of (alts W) c = Some hc ->
+       hc - he <= p_settle P + 1 ->
+       exists K', exec_atv W P c K (honest_atv W (p_ki P) id e bop) = inl K').
+Proof. exact atv_window_plus_one_accepted_refuted. Qed.
+Print Assumptions C19_atv_window_plus_one_accepted_refuted.
+
+Theorem C19_atv_window_exactly_rejected_refuted :
+  ~ (forall W P c K id e bop he hc,
+       alt_known W e = true -> vbk_connects W K bop -> is_anc_or_eq (alts W) e c ->
+       height_of (alts W) e = Some he -> height_of (alts W) c = Some hc ->
+       p_settle P <= hc - he ->
+       exists err, exec_atv W P c K (honest_atv W (p_ki P) id e bop) = inr err).
+Proof. exact atv_window_exactly_rejected_refuted. Qed.
+Print Assumptions C19_atv_window_exactly_rejected_refuted.
+
+(** the VBK settlement interval of an honestly built VTB: same non-strict inequality, same template in the code *)
+Theorem C19_vtb_window_exact :
+  forall W P s sp w hc,
+    honest_vtb W (brefs s) sp = Some w ->
+    In (vs_cont sp) (vknown s) -> vclosed W (vknown s) -> btc_clock_ok W ->
+    count (vs_cont sp) (vin s) < p_maxvtb P ->
+    height_of (vbks W) (vs_cont sp) = Some hc ->
+    (exec_vtb W P s w = inl (after_vtb s w) <-> hc - vs_eh sp <= p_vsettle P)
+    /\ (exec_vtb W P s w = inr EVExpired <-> p_vsettle P < hc - vs_eh sp).
+Proof. exact honest_vtb_window_exact. Qed.
+Print Assumptions C19_vtb_window_exact.
+
+Theorem C19_vtb_window_plus_one_accepted_refuted :
+  ~ (forall W P s sp w hc,
+       honest_vtb W (brefs s) sp = Some w ->
+       In (vs_cont sp) (vknown s) -> vclosed W (vknown s) -> btc_clock_ok W ->
+       count (vs_cont sp) (vin s) < p_maxvtb P ->
+       height_of (vbks W) (vs_cont sp) = Some hc ->
+       hc - vs_eh sp <= p_vsettle P + 1 ->
+       exists s', exec_vtb W P s w = inl s').
+Proof. exact vtb_window_plus_one_accepted_refuted. Qed.
+Print Assumptions C19_vtb_window_plus_one_accepted_refuted.
+
+Theorem C19_vtb_window_exactly_rejected_refuted :
+  ~ (forall W P s sp w hc,
+       honest_vtb W (brefs s) sp = Some w ->
+       In (vs_cont sp) (vknown s) -> vclosed W (vknown s) -> btc_clock_ok W ->
+       count (vs_cont sp) (vin s) < p_maxvtb P ->
+       height_of (vbks W) (vs_cont sp) = Some hc ->
+       p_vsettle P <= hc - vs_eh sp ->
+       exists err, exec_vtb W P s w = inr err).
+Proof. exact vtb_window_exactly_rejected_refuted. Qed.
+Print Assumptions C19_vtb_window_exactly_rejected_refuted.
+
+(** fork independence: at the end of ANY valid chain of bodies, in ANY block that has the endorsed block on its
+    chain within the window, the honest endorsement is accepted *)
+Theorem C19_honest_atv_any_fork :
+  forall W P s0 pre c id e bop,
+    let s := after_chain s0 pre in
+    let b := mkBody [] [] [honest_atv W (p_ki P) id e bop] in
+    chain_valid W P s0 pre ->
+    alt_known W e = true -> is_anc_or_eq (alts W) e c -> within (alts W) c e (p_settle P) ->
+    vbk_connects W (vknown s) bop -> ~ In (2, id) (seen s) ->
+    apply_chain W P s0 (pre ++ [(c, b)]) = VOk (after_block s b).
+Proof. exact honest_atv_any_fork. Qed.
+Print Assumptions C19_honest_atv_any_fork.
+
+Theorem C19_honest_atv_two_forks :
+  forall W P pre1 pre2 c1 c2 id e bop,
+    let b := mkBody [] [] [honest_atv W (p_ki P) id e bop] in
+    alt_known W e = true ->
+    (forall pre c, In (pre, c) [(pre1, c1); (pre2, c2)] ->
+       chain_valid W P st0 pre /\ is_anc_or_eq (alts W) e c /\ within (alts W) c e (p_settle P)
+       /\ vbk_connects W (vknown (after_chain st0 pre)) bop /\ ~ In (2, id) (seen (after_chain st0 pre))) ->
+    apply_chain W P st0 (pre1 ++ [(c1, b)]) = VOk (after_block (after_chain st0 pre1) b)
+    /\ apply_chain W P st0 (pre2 ++ [(c2, b)]) = VOk (after_block (after_chain st0 pre2) b).
+Proof. exact honest_atv_two_forks. Qed.
+Print Assumptions C19_honest_atv_two_forks.
+
+(** acceptance transfers between containing blocks: what block c accepts, every block c' with the endorsed block
+    on its chain and height <= endorsed + settle accepts with the same result (any ATV, same connecting context) *)
+Theorem C19_atv_accept_transfers :
+  forall W P c c' K t K' he h',
+    exec_atv W P c K t = inl K' ->
+    is_anc_or_eq (alts W) (t_endorsed t) c' ->
+    height_of (alts W) (t_endorsed t) = Some he -> height_of (alts W) c' = Some h' ->
+    h' <= he + p_settle P ->
+    exec_atv W P c' K t = inl K'.
+Proof. exact atv_accept_transfers. Qed.
+Print Assumptions C19_atv_accept_transfers.
+
+(** along c's own chain: the block at every height from the endorsed height up to c accepts it too *)
+Theorem C19_atv_accept_monotone_along_chain :
+  forall W P c K t K' he hc h' c',
+    exec_atv W P c K t = inl K' ->
+    height_of (alts W) (t_endorsed t) = Some he -> height_of (alts W) c = Some hc ->
+    he <= h' -> h' <= hc -> ancestor_at (alts W) c h' = Some c' ->
+    exec_atv W P c' K t = inl K'.
+Proof. exact atv_accept_monotone_below. Qed.
+Print Assumptions C19_atv_accept_monotone_along_chain.
+
+(** until the window closes: above endorsed + settle the same ATV is refused as expired *)
+Theorem C19_atv_window_closes :
+  forall W P c c' K t K' he h',
+    exec_atv W P c K t = inl K' ->
+    is_anc_or_eq (alts W) (t_endorsed t) c' ->
+    height_of (alts W) (t_endorsed t) = Some he -> height_of (alts W) c' = Some h' ->
+    he + p_settle P < h' ->
+    exec_atv W P c' K t = inr EExpired.
+Proof. exact atv_window_closes. Qed.
+Print Assumptions C19_atv_window_closes.
+
+(** the premises of the full theorem are satisfiable by a block with VBK context, three VTBs (one at the exact VBK
+    window boundary, two in one VBK block, a BTC fork) and two ATVs (one at the exact ALT window boundary) *)
+Theorem C19_full_premises_satisfiable :
+  let ctx := [1; 2; 3; 4; 5] in
+  let vtbs := [mkVtb 11 2 3 0 [1; 2]; mkVtb 12 2 4 2 [3; 4]; mkVtb 13 3 4 2 [5]] in
+  let specs := [(21, 1, 5); (22, 3, 4)] in
+  honest_vtbs hxW hx_s1 hx_specs = Some vtbs
+  /\ honest_vtb_specs hxW hxP hx_s1 hx_specs
+  /\ honest_atvs hxW hxP 4 (known_after (vknown st0) ctx) specs
+  /\ ctx_connects hxW (vknown st0) ctx
+  /\ no_dup_on_chain st0 (mkBody ctx vtbs (mk_honest hxW hxP specs))
+  /\ vclosed hxW (vknown st0) /\ btc_clock_ok hxW.
+Proof. exact hx_full_premises. Qed.
+Print Assumptions C19_full_premises_satisfiable.
